@@ -396,13 +396,18 @@ theorem cell_pixel_size_shape :
     (∀ pix cells, termCellW pix cells = termCell pix cells) ∧ (∀ pix cells, termCellH pix cells = termCell pix cells) :=
   ⟨cellPixelSize_shape.1, cellPixelSize_shape.2, termCellW_eq, termCellH_eq⟩
 
-open VaxisModel.Gen VaxisModel.Lemmas in
-/-- Both `Resize` methods take the cell geometry from `cellPixelSize`, call `resizeImage` with it, and compute the cell size
-    as quotient `+ 1` on a remainder in both directions (= `Model.ImageFit.cellsUp`, `protoCellSize`): a dropped
-    `+= 1` breaks this. -/
-theorem facts_resize_cell_size :
-    ImageFlow.kittyResizeCell = ImageFlowExpected.kittyResizeCell ∧
-    ImageFlow.sixelResizeCell = ImageFlowExpected.sixelResizeCell := by decide +kernel
+/-- **The cell-size arithmetic of both `Resize` methods as regenerated** (structured, interpreted by
+    `protoCellSizeWith`): the geometry is `cellPixelSize`'s and is what `resizeImage` gets, the cell size is the quotient
+    plus one on a remainder in both directions — for `KittyImage.Resize` and, separately, for the copy of that code in
+    `Sixel.Resize`'s goroutine.  So the interpreted models of both are `protoCellSizeTerm`, about which `no_panic_term`,
+    `fit_term` and `cell_size_exact_proto` speak: a dropped `+= 1` in either copy breaks this. -/
+theorem resize_shape :
+    kittyResize = ⟨true, true, true, true, true⟩ ∧ sixelResize = ⟨true, true, true, true, true⟩ ∧
+    (∀ F wPix hPix w h xpix cols ypix rows,
+      kittyCellSizeTerm F wPix hPix w h xpix cols ypix rows = protoCellSizeTerm F wPix hPix w h xpix cols ypix rows) ∧
+    (∀ F wPix hPix w h xpix cols ypix rows,
+      sixelCellSizeTerm F wPix hPix w h xpix cols ypix rows = protoCellSizeTerm F wPix hPix w h xpix cols ypix rows) :=
+  ⟨resizeShape_std.1, resizeShape_std.2, kittyCellSizeTerm_eq, sixelCellSizeTerm_eq⟩
 
 open VaxisModel.Gen VaxisModel.Lemmas in
 /-- Upload side (= `Model.ImageTerm.KImg.write / resize`): `writeTo` sends and empties `k.buf` and sets `uploaded` unless it
